@@ -182,7 +182,9 @@ class Check:
         classes = None
         if rng.random() < 0.2:
             # the user's configuration replaces extension lists (the active configuration decides the extension classes)
-            classes = {"is_archive": rng.sample([".zip", ".txt", ".gz", ".c", ".x1", ".tar.gz"], 2), "is_image": rng.sample([".jpg", ".md", ".o", ".py"], 2), "is_source": rng.sample([".rs", ".log", ".tar.gz", ".zip"], 2)}
+            classes = {"is_archive": rng.sample([".zip", ".txt", ".gz", ".c", ".x1", ".tar.gz"], 2), "is_image": rng.sample([".jpg", ".md", ".o", ".py"], 2), "is_source": rng.sample([".rs", ".log", ".tar.gz", ".zip"], 2),
+                       # an empty list is a configuration too: nothing is of that class
+                       rng.choice(["is_audio", "is_video", "is_doc"]): []}
         return {"sub": "meta", "world": world, "top": top, "plan": plan, "tz": rng.choice(["UTC", "Europe/Berlin", "America/New_York", "Asia/Kolkata"]),
                 "mode": rng.choice(["bfs", "dfs"]), "classes": classes, "noise": noise, "noise_where": noise_where, "shuffle": rng.randrange(1 << 30)}
 
